@@ -114,12 +114,40 @@ static const Geo GEOS[] = {
   {"f=-0.1-prolate", WA, -0.1, 5, 100, -5, false},
   {"a=1,f=1/150", 1, 1 / 150.0, 33, -120, 200, false},
   {"wgs84-south-pole-start", WA, WF, -90, 0, -30, false},
+  // third ring (thorough): more flattenings of the documented series range, cardinal and nearly cardinal azimuths at
+  // several latitudes, starts next to the poles, longitudes outside [-180,180], other sizes
+  {"f=0.2-generic", WA, 0.2, 25, -10, 70, false},
+  {"f=-0.2-generic", WA, -0.2, -15, 60, -140, false},
+  {"f=0.05-east", WA, 0.05, 50, 0, 90, false},
+  {"f=-0.05-west", WA, -0.05, -50, 0, -90, false},
+  {"f=0.005-generic", WA, 0.005, 12, 34, 56, false},
+  {"f=-0.005-generic", WA, -0.005, -12, -34, -56, false},
+  {"f=1/150-northeast", WA, 1 / 150.0, 0, 179.5, 45, false},
+  {"f=0.01-limit-of-plain-series", WA, 0.01, 35, 135, -60, false},           // |f| = 0.01 exactly: no Newton correction
+  {"f=0.010001-newton-branch", WA, 0.010001, 35, 135, -60, false},
+  {"wgs84-east-at-60", WA, WF, 60, 0, 90, false},
+  {"wgs84-west-at-minus-60", WA, WF, -60, 100, -90, false},
+  {"wgs84-azi-1e-15", WA, WF, 10, 20, 1e-15, false},
+  {"wgs84-azi-180-minus-1e-12", WA, WF, -10, -20, 180 - 1e-12, false},
+  {"wgs84-next-to-north-pole", WA, WF, 89.999, 45, 100, false},
+  {"wgs84-next-to-south-pole", WA, WF, -89.999999, -45, -80, false},
+  {"wgs84-lon1=725", WA, WF, 30, 725, 60, false},
+  {"wgs84-lon1=-540.5", WA, WF, -30, -540.5, 300, false},
+  {"wgs84-azi1=450", WA, WF, 5, 5, 450, false},
+  {"wgs84-equator-northward", WA, WF, 0, -100, 0, false},
+  {"wgs84-equator-azi-89.999999", WA, WF, 0, 10, 89.999999, false},
+  {"a=1e9,f=-1/150", 1e9, -1 / 150.0, 45, 0, 135, false},
+  {"a=1e-3,f=1/298", 1e-3, WF, -45, 90, -135, false},
+  {"sphere-meridional", WA, 0, -20, 0, 0, false},
+  {"sphere-equatorial-west", WA, 0, 0, 0, -90, false},
+  {"f=0.1-meridional", WA, 0.1, 10, 10, 180, false},
+  {"f=-0.1-equatorial", WA, -0.1, 0, 0, 90, false},
 };
 static const int NGEO = sizeof(GEOS) / sizeof(GEOS[0]);
 // positions as arc lengths (degrees): short, negative, more than half way round, more than two circuits
 static const int NPOS_MAX = 10;
 static const double ARCS[NPOS_MAX] = {35, -50, 200, 725.5, -190, 90, 180, -1000.25, 1e-9, 0};
-static const int NPOS_Q = 2, NPOS_T = NPOS_MAX, NPOS_PATH = 4;     // positions: quick, thorough (Line path, GenDirect, overloads), other constructor paths
+static const int NPOS_Q = 2, NPOS_T = NPOS_MAX, NPOS_PATH = NPOS_MAX;     // positions: quick, thorough (Line path, GenDirect, overloads), other constructor paths
 
 template <class L> static Out genpos(const L& l, bool arcmode, double x, unsigned outmask) {
   Out o; o.ret = l.GenPosition(arcmode, x, outmask, o.v[0], o.v[1], o.v[2], o.v[3], o.v[4], o.v[5], o.v[6], o.v[7]); return o;
@@ -736,8 +764,8 @@ int main(int argc, char** argv) {
   ctx.bound("solvers", "Geodesic (series), GeodesicExact, Geodesic(exact=true); Rhumb series and exact");
   ctx.bound("outmask", "all 2^8 subsets of {LATITUDE,LONGITUDE,AZIMUTH,DISTANCE,REDUCEDLENGTH,GEODESICSCALE,AREA,LONG_UNROLL}");
   ctx.bound("caps", "all 2^8 subsets of {LATITUDE,LONGITUDE,AZIMUTH,DISTANCE,DISTANCE_IN,REDUCEDLENGTH,GEODESICSCALE,AREA}");
-  ctx.bound("geodesics", T ? "14 (f=1/25, f=-1/50, generic, meridional, equatorial, nearly equatorial, both pole starts, southward, prolate x2, f=0.1, sphere, a=1)" : "5 (WGS84 generic, WGS84 meridional, f=0.1 generic, f=1/25 oblique, prolate east-going across the antimeridian)");
-  ctx.bound("positions", T ? "arc lengths 35, -50, 200, 725.5, -190, 90, 180, -1000.25, 1e-9, 0 deg and the corresponding distances (lines from DirectLine/ArcDirectLine/GenDirectLine/InverseLine: the first 4)" : "arc lengths 35, -50 deg and the corresponding distances");
+  ctx.bound("geodesics", T ? "40 (f=1/25, f=-1/50, f=+-0.005, +-0.05, +-0.2, 0.01, 0.010001, 1/150, cardinal / nearly cardinal azimuths, starts next to the poles, lon1 = 725 and -540.5, azi1 = 450, a = 1e9 and 1e-3, generic, meridional, equatorial, nearly equatorial, both pole starts, southward, prolate x2, f=0.1, sphere, a=1)" : "5 (WGS84 generic, WGS84 meridional, f=0.1 generic, f=1/25 oblique, prolate east-going across the antimeridian)");
+  ctx.bound("positions", T ? "arc lengths 35, -50, 200, 725.5, -190, 90, 180, -1000.25, 1e-9, 0 deg and the corresponding distances" : "arc lengths 35, -50 deg and the corresponding distances");
   ctx.bound("line-constructor-paths", T ? "Line, DirectLine, ArcDirectLine, GenDirectLine(false), GenDirectLine(true), InverseLine -- each x all 2^8 capability sets x all 2^8 masks x arcmode x positions" : "Line (the other paths: point-3 subchecks only)");
   check_enums(ctx);
   run_solver<SeriesT>(ctx, T);
